@@ -95,6 +95,17 @@ def run(R):
 
         def leaf(t_, which, depth):
             t_ = strip_refs(t_)
+            # taken straight out of the incoming request's Parts: MetadataMap::from_headers(parts.headers) / parts.extensions
+            def parts_field(x_, name_):
+                x_ = strip_refs(x_)
+                if x_ and x_[0] == 'field' and x_[2] == name_:
+                    p0_ = strip_refs(x_[1])
+                    return bool(p0_ and p0_[0] == 'field' and p0_[2] == 0 and is_call(strip_refs(p0_[1]), pat='http::Request', name='into_parts') and arg_root(strip_refs(strip_refs(p0_[1])[2][0])) == 2)
+                return False
+            if which == 'metadata' and is_call(t_, pat='MetadataMap', name='from_headers') and t_[2] and parts_field(t_[2][0], 'headers'):
+                return 'in-headers'
+            if which == 'extensions' and parts_field(t_, 'extensions'):
+                return 'in-extensions'
             if t_ and t_[0] in ('agg', 'const') and (t_[0] == 'const' or t_[1].get('kind') == 'tuple') and not (t_[2] if t_[0] == 'agg' else None):
                 return 'unit'
             if t_ and t_[0] == 'field' and isinstance(t_[2], int):
